@@ -1,6 +1,8 @@
 package keeper
 
 import (
+	"slices"
+	"sort"
 	"strconv"
 
 	"github.com/ExocoreNetwork/exocore/x/avs/types"
@@ -77,7 +79,15 @@ func (wrapper EpochsHooksWrapper) AfterEpochEnd(
 				// Handle the error gracefully, continue to the next
 				// continue
 			}
-			diff := types.Difference(taskInfo.OptInOperators, signedOperatorList)
+			// the non-signers are the operators expected to sign that did not; a signer that
+			// was not opted in when the task was created must not be listed as a non-signer too
+			var diff []string
+			for _, operator := range taskInfo.OptInOperators {
+				if !slices.Contains(signedOperatorList, operator) {
+					diff = append(diff, operator)
+				}
+			}
+			sort.Strings(diff)
 			taskInfo.SignedOperators = signedOperatorList
 			taskInfo.NoSignedOperators = diff
 			taskInfo.OperatorActivePower = &types.OperatorActivePowerList{OperatorPowerList: operatorPowers}
